@@ -32,6 +32,9 @@ pub enum Action {
     CloseBalance { u: usize, b: usize },
     Liquidate { liquidator: usize, liquidatee: usize, asset: usize, liab: usize, amt: u64 },
     Bankruptcy { signer: Signer, u: usize, b: usize },
+    /// a third party's receivership bracket on `liquidatee`: [init record if missing, start_liquidation, repay r_amt of
+    /// `liab`, withdraw w_amt of `asset`, end_liquidation], signed by `liquidator`'s authority, tokens from / to its wallets
+    Receivership { liquidator: usize, liquidatee: usize, asset: usize, liab: usize, w_amt: u64, r_amt: u64 },
     Accrue { b: usize },
     /// the permissionless price-cache crank of a bank (reads the oracle, must not touch interest)
     PulsePriceCache { b: usize },
@@ -225,7 +228,7 @@ pub fn user_ix(w: &World, s: &Store, a: &Action, signer: Pubkey) -> Option<Ix> {
         Action::CloseOriginal { u } => ix::account_close(w.users[*u].account, signer, w.payer),
         Action::CloseBank { b } => ix::close_bank(g, w.banks[*b].key, signer),
         Action::Freeze { u, on } => ix::set_account_freeze(g, acct(*u), signer, *on),
-        Action::Advance { .. } | Action::AdvanceStale { .. } | Action::SetPrice { .. } => return None,
+        Action::Advance { .. } | Action::AdvanceStale { .. } | Action::SetPrice { .. } | Action::Receivership { .. } => return None,
     })
 }
 
@@ -247,6 +250,7 @@ pub fn default_signer(w: &World, a: &Action) -> Option<Pubkey> {
         }
         Action::Liquidate { liquidator, .. } => w.users[*liquidator].authority,
         Action::Bankruptcy { signer, u, .. } => signer_key(w, signer, Some(*u)),
+        Action::Receivership { liquidator, .. } => w.users[*liquidator].authority,
         Action::Accrue { .. } | Action::CollectFees { .. } | Action::PulsePriceCache { .. } => w.payer,
         Action::TokenlessRepay { .. } | Action::Purge { .. } | Action::ForceTokenlessComplete { .. } => w.roles.risk,
         Action::Transfer { u } | Action::TransferPda { u } | Action::CloseAccount { u } | Action::CloseOriginal { u } => w.users[*u].authority,
@@ -262,10 +266,32 @@ pub struct StepResult {
     pub committed: bool,
 }
 
+/// the transaction of a `Receivership` action
+fn receivership_tx(w: &World, s: &Store, a: &Action) -> Tx {
+    let Action::Receivership { liquidator, liquidatee, asset, liab, w_amt, r_amt } = a else { unreachable!() };
+    let signer = w.users[*liquidator].authority;
+    let acct = cur_account(w, s, *liquidatee);
+    let (ab, lb) = (&w.banks[*asset], &w.banks[*liab]);
+    let lq = &w.users[*liquidator];
+    let rem = w.risk_metas(s, &acct, None, None);
+    let mut ixs = vec![];
+    let mut signers = vec![signer];
+    if s.get(&ix::liq_record_key(&acct)).is_none() {
+        ixs.push(ix::init_liq_record(acct, w.payer));
+        signers.push(w.payer);
+    }
+    ixs.push(ix::start_liquidation(acct, signer, rem.clone()));
+    ixs.push(ix::repay(w.group, acct, signer, lb.key, lq.tokens[&lb.mint], lb.token_program, *r_amt, None, with_mint(w, *liab, vec![])));
+    ixs.push(ix::withdraw(w.group, acct, signer, ab.key, lq.tokens[&ab.mint], ab.token_program, *w_amt, None, with_mint(w, *asset, rem.clone())));
+    ixs.push(ix::end_liquidation(acct, signer, w.fee_wallet, rem));
+    Tx::new(ixs, &signers)
+}
+
 /// The transaction an action stands for (None for environment actions, which edit the store).
 pub fn tx_for(w: &World, s: &Store, a: &Action) -> Option<Tx> {
     match a {
         Action::Advance { .. } | Action::AdvanceStale { .. } | Action::SetPrice { .. } => None,
+        Action::Receivership { .. } => Some(receivership_tx(w, s, a)),
         Action::TokenlessRepay { u, .. } => {
             let signer = default_signer(w, a).unwrap();
             let acct = cur_account(w, s, *u);
@@ -312,6 +338,10 @@ pub fn apply(w: &World, s: &mut Store, a: &Action) -> StepResult {
                 world::scale_pyth_price(s, &o, *num, *den);
             }
             StepResult { code: 0, committed: true }
+        }
+        Action::Receivership { .. } => {
+            let r = crate::svm::process_tx(s, &receivership_tx(w, s, a));
+            StepResult { code: r.code(), committed: r.ok() }
         }
         Action::TokenlessRepay { u, .. } => {
             // the risk admin acts on someone else's account inside a deleverage bracket
